@@ -26,6 +26,10 @@ type RangeProver struct {
 	ForceC *big.Int
 	// ForceCOnly, if >= 0 together with ForceC, replaces only the commitment at that position (the others stay honest)
 	ForceCOnly *int
+	// DRandZero: the randomisers of the d responses are 0 (with negative roots the responses are then negative)
+	DRandZero bool
+	// V5Abs: v5 = sum |d_i| v_i instead of sum d_i v_i (a prover betting on a verifier that drops the sign of an exponent)
+	V5Abs bool
 	// OwnMResponse: the returned proof carries its own response for m (MRand + c*M) instead of leaving it to the verifier
 	OwnMResponse bool
 
@@ -47,8 +51,15 @@ func (p *RangeProver) Commit() []*big.Int {
 			p.v[i] = p.V[i]
 		}
 		p.dRand[i] = RandBits(p.Ld + pk.Params.Lh + pk.Params.Lstatzk)
+		if p.DRandZero {
+			p.dRand[i] = big.NewInt(0)
+		}
 		p.vRand[i] = RandBits(pk.Params.Lm + pk.Params.Lh + pk.Params.Lstatzk)
-		p.v5.Add(p.v5, new(big.Int).Mul(p.D[i], p.v[i]))
+		if p.V5Abs {
+			p.v5.Add(p.v5, new(big.Int).Mul(new(big.Int).Abs(p.D[i]), p.v[i]))
+		} else {
+			p.v5.Add(p.v5, new(big.Int).Mul(p.D[i], p.v[i]))
+		}
 		p.c[i] = mulmod(n, PowSigned(R, p.D[i], n), PowSigned(pk.S, p.v[i], n))
 		if p.ForceC != nil && (p.ForceCOnly == nil || *p.ForceCOnly == i) {
 			p.c[i] = new(big.Int).Set(p.ForceC)
